@@ -56,6 +56,15 @@ CLAIMS = {
         "(decimal text -> exact rational), float->Fix conversion.",
    technique="TLA+ print-law predicate; carry model model-checked by TLC; trace validation of real strings/tuples",
    ref="5/C04"),
+ "C03": dict(
+   text="AngleADT.tla specifies every constructor and operator as Reduce(exact real result); ObjHeap.tla specifies the object "
+        "heap (operators allocate, in-place forms rebind, only documented mutators write). TLC model-checks the value laws on a "
+        "dyadic grid and the frame laws on all operation sequences of depth 2, emits those behaviours (and -simulate ones of "
+        "depth 6-8), the harness executes them on real Angle objects and TLC validates every step; constructor/operator events "
+        "from seeded boundary inputs are judged by TLC with exact fixed-point results.",
+   note="Trusted: TLC, Fix.tla, harness quotient/floor witnesses (verified by the spec before use), 50-digit pi for radian inputs.",
+   technique="TLA+ ADT + heap model; TLC-generated behaviours replayed on real objects; trace validation",
+   ref="5/C03"),
 }
 
 PENDING_REASON = "check not built yet in this round (specification module planned in DESIGN.md section 5); not claimed until its trace specification validates the unchanged tree"
